@@ -2520,3 +2520,49 @@ def lck6_manual_config_lock_order(P, R, L, rule="LCK-6"):
         st = L.site_state(c)
         R.check(rule, "%s|manual-config-locked-under-db-mutex" % c.body.path, st == "held", c.where(),
                 "the manual compaction configuration is locked only while the DB mutex is held", "state=%s" % st)
+
+
+def own8_file_numbers(P, R, L, rule="OWN-8"):
+    """File numbers are unique: the counter is written only by get_new_file_number (+1), mark_file_number_used (raise),
+    reuse_file_number (−1, only when the number handed back is the current one) and recover (restore)."""
+    VS = "versioning::version_set::VersionSet"
+    allowed = {VS + "::get_new_file_number", VS + "::mark_file_number_used", VS + "::reuse_file_number", VS + "::recover", VS + "::new"}
+    n = 0
+    for p, b in sorted(P.bodies.items()):
+        st = field_stores(b, "curr_file_number", adt=VS)
+        if not st:
+            continue
+        n += 1
+        R.analysed(b)
+        R.check(rule, "%s|writes-file-number-counter" % p, p in allowed, where(b), "only the four counter functions write VersionSet::curr_file_number", p)
+    R.floor(rule, "writers of the file-number counter", n, 4)
+    ru = P.body(VS + "::reuse_file_number")
+    if ru is not None:
+        R.analysed(ru)
+        st = field_stores(ru, "curr_file_number", adt=VS)
+        eq = []
+        cur = origin_pred_field("curr_file_number")
+        par = lambda os_: any(o.kind == "param" and o.name == 2 and not o.path for o in os_)
+        for c in comparisons(ru):
+            eq += c.edges_where("eq", cur, par, exact=True)
+        ok = bool(st) and bool(eq) and all(ru.must_pass(s[0], through_edges=eq) for s in st)
+        R.check(rule, ru.path + "|decrement-only-for-current-number", ok, where(ru),
+                "the counter is decremented only on the edge where the returned number equals the current counter", "eq-edges %s" % eq)
+    gn = P.body(VS + "::get_new_file_number")
+    if gn is not None:
+        R.analysed(gn)
+        st = field_stores(gn, "curr_file_number", adt=VS)
+        inc = any(s[2]["rv"]["k"] == "use" and any(o.kind == "binop" and o.name.startswith("Add") for o in origins(gn, s[2]["rv"]["ops"][0])) for s in st) or \
+            any(s[2]["rv"]["k"] == "binop" and s[2]["rv"]["op"].startswith("Add") for s in st)
+        ret_field = any("curr_file_number" in o.path for o in origins(gn, {"l": 0, "p": []}))
+        R.check(rule, gn.path + "|increment-then-return", bool(st) and inc and ret_field, where(gn),
+                "get_new_file_number increments the counter and returns the incremented value", "stores %d inc=%s returns-field=%s" % (len(st), inc, ret_field))
+    mk = P.body(VS + "::mark_file_number_used")
+    if mk is not None:
+        R.analysed(mk)
+        st = field_stores(mk, "curr_file_number", adt=VS)
+        le = []
+        for c in comparisons(mk):
+            le += c.edges_where("le", origin_pred_field("curr_file_number"), lambda os_: any(o.kind == "param" and o.name == 2 for o in os_))
+        ok = bool(st) and bool(le) and all(mk.must_pass(s[0], through_edges=le) for s in st)
+        R.check(rule, mk.path + "|only-raises", ok, where(mk), "mark_file_number_used only ever raises the counter", "le-edges %s" % le)
